@@ -286,24 +286,49 @@ func (t *Task) latestDependency(pg wpg.Conn) (uint64, []byte, error) {
 		)
 		select num, hash
 		from latest
-		order by num asc
-		limit 1;
+		order by num asc;
 	`
-	num, hash := uint64(0), []byte{}
-	err := pg.QueryRow(
+	rows, err := pg.Query(
 		t.ctx,
 		q,
 		t.srcName,
 		t.destConfig.Dependencies,
-	).Scan(&num, &hash)
-	switch {
-	case errors.Is(err, pgx.ErrNoRows):
-		return 0, nil, nil
-	case err != nil:
+	)
+	if err != nil {
 		return 0, nil, err
-	default:
-		return num, hash, nil
 	}
+	defer rows.Close()
+	var (
+		n    int
+		num  uint64
+		hash []byte
+	)
+	for rows.Next() {
+		var (
+			rnum  uint64
+			rhash []byte
+		)
+		if err := rows.Scan(&rnum, &rhash); err != nil {
+			return 0, nil, err
+		}
+		if n == 0 {
+			num, hash = rnum, rhash
+		}
+		n++
+	}
+	if err := rows.Err(); err != nil {
+		return 0, nil, err
+	}
+	// every dependency must have made progress on this source;
+	// one that has not started yet holds the task back.
+	uniq := map[string]struct{}{}
+	for _, name := range t.destConfig.Dependencies {
+		uniq[name] = struct{}{}
+	}
+	if n < len(uniq) {
+		return 0, nil, nil
+	}
+	return num, hash, nil
 }
 
 func (t *Task) latest(ctx context.Context, pg wpg.Conn) (uint64, []byte, error) {
